@@ -58,6 +58,18 @@ func newPicker(seed int64) *picker {
 	return p
 }
 
+// SourceOf instantiates the class string of an MC_C13 state with the first representative of each class
+// (for other checks that only need the bytes).
+func SourceOf(st core.State) []byte {
+	var sb strings.Builder
+	for _, cl := range tla.Strs(st.Vars["s"]) {
+		if r := reps[cl]; len(r) > 0 {
+			sb.WriteString(r[0])
+		}
+	}
+	return []byte(sb.String())
+}
+
 // streaming decode with encoding/json: value and duplicate-name detection
 func decode(dec *stdjson.Decoder) (cty.Value, bool, error) {
 	t, err := dec.Token()
